@@ -30,8 +30,14 @@ META = {
 }
 
 MODE_NUM = {"R": 1, "W": 2, "RW": 3}
-SCHEDS_QUICK = ["lfq", "ap", "ll"]
-SCHEDS_ALL = ["ap", "gd", "ip", "lfq", "lhq", "ll", "llp", "ltq", "pbq", "rnd", "spq"]
+# (scheduler, threads).  A DTD writer that finds readers outstanding returns AGAIN and is re-queued (active wait);
+# the schedulers ip and llp, and ll with one thread (which warns about it itself), keep selecting that task and
+# live-lock: these configurations are probed by C04 only (finding dtd-again-livelock), not used here.
+CONFIGS_QUICK = [("lfq", 1), ("lfq", 4), ("ap", 2), ("ll", 3), ("pbq", 4)]
+CONFIGS_ALL = [(s, t) for s in ("ap", "gd", "lfq", "lhq", "ltq", "pbq", "rnd", "spq") for t in (1, 2, 4, 8)] + \
+              [("ll", 2), ("ll", 4), ("ll", 8)]
+LIVELOCK_CONFIGS = [("ip", 2), ("llp", 2), ("ll", 1)]
+KEY_DUP = "dtd-same-tile-several-params"
 SEQ_INVS = ("TypeOK", "ReadsSequential", "FinalSequential", "NoConflictRunning", "WriterAfterReaders", "FlushReturnsLast")
 
 
@@ -45,11 +51,12 @@ def model_check(ctx, d):
         cfgs.append(("m3x2", {"ND": 2, "MaxTasks": 3, "MaxAcc": 2}))
     for name, c in cfgs:
         consts = {"ND": c["ND"], "Ranks": {0}, "MaxTasks": c["MaxTasks"], "MaxAcc": c["MaxAcc"],
-                  "Modes": {"R", "W", "RW"}, "WithFlush": True}
+                  "Modes": {"R", "W", "RW"}, "WithFlush": True, "DupData": True}
         mod, cfg = mcgen.write_mc(d, name, "Seq", consts, invariants=SEQ_INVS)
         ctx.tlc_check(d, mod, cfg, must_cover=("Insert", "Start", "End", "Flush", "FlushRun"), workers=4, timeout=1500)
     # vacuity of "readers may overlap": the negation must be violated
-    consts = {"ND": 1, "Ranks": {0}, "MaxTasks": 3, "MaxAcc": 1, "Modes": {"R", "W", "RW"}, "WithFlush": False}
+    consts = {"ND": 1, "Ranks": {0}, "MaxTasks": 3, "MaxAcc": 1, "Modes": {"R", "W", "RW"}, "WithFlush": False,
+              "DupData": False}
     mod, cfg = mcgen.write_mc(d, "overlap", "Seq", consts, invariants=("NoTwoRunning",),
                               extra_defs="NoTwoRunning == ~TwoReadersOverlap")
     r = ctx.tlc_check(d, mod, cfg, expect_ok=False, workers=2)
@@ -58,9 +65,11 @@ def model_check(ctx, d):
     ctx.exhaustive = True
 
 
-def gen_programs(ctx, d, name, nd, ntasks, maxacc, num, ranks=(0, 1, 2, 3), modes=("R", "W", "RW")):
-    """TLC -simulate of Seq: every printed history is one program (list of {"accs": [{"d","m"}], "rank"})."""
-    consts = {"ND": nd, "Ranks": set(ranks), "MaxTasks": ntasks, "MaxAcc": maxacc, "Modes": set(modes), "WithFlush": False}
+def gen_programs(ctx, d, name, nd, ntasks, maxacc, num, ranks=(0, 1, 2, 3), modes=("R", "W", "RW"), dup=False):
+    """TLC -simulate of Seq: every printed history is one program (list of {"accs": [{"d","m"}], "rank"}).
+    dup: a datum may be given to several parameters of one task."""
+    consts = {"ND": nd, "Ranks": set(ranks), "MaxTasks": ntasks, "MaxAcc": maxacc, "Modes": set(modes),
+              "WithFlush": False, "DupData": dup}
     mod, cfg = mcgen.write_mc(d, "gen_" + name, "Seq", consts, invariants=SEQ_INVS[:5] + ("Emit",))
     hs = ctx.tlc_histories(d, mod, cfg, num, 3 * ntasks + 2, workers=4, timeout=900)
     return [{"nd": nd, "tasks": h} for h in hs]
@@ -177,8 +186,19 @@ def merged_events(ex):
     return evs
 
 
-def validate(ctx, module, execs, to_events, what, batch=300):
-    """Trace-validate executions; returns number of violations reported."""
+def has_dup(line):
+    """Does some task of the program line give one datum to several parameters ?"""
+    for seg in line.split(";")[1:]:
+        tk = seg.split()
+        ds = [tk[2 + 2 * i] for i in range(int(tk[1]))]
+        if len(set(ds)) != len(ds):
+            return True
+    return False
+
+
+def validate(ctx, module, execs, to_events, what, batch=300, key=None):
+    """Trace-validate executions; returns number of violations reported.  key: known-finding key for programs of
+    the class `key` describes (decided by the caller through key(exec))."""
     if not execs:
         return 0
     evl = [to_events(x) for x in execs]
@@ -186,7 +206,8 @@ def validate(ctx, module, execs, to_events, what, batch=300):
     for f in fails:
         x = execs[f.index]
         ctx.violation("%s: %s" % (what, json.dumps({"program": x.line, "config": x.cfg, "detail": f.describe()})[:1800]),
-                      {"module": module, "events": f.execution, "program": x.line, "config": x.cfg, "detail": f.describe()})
+                      {"module": module, "events": f.execution, "program": x.line, "config": x.cfg, "detail": f.describe()},
+                      key=key(x) if key else None)
     return len(fails)
 
 
@@ -205,21 +226,13 @@ def corrupted_rejected(ctx, module, events):
     ctx.extra["corrupted_trace_rejected"] = True
 
 
-def configs(ctx, scheds, threads, windows):
-    out = []
-    for s in scheds:
-        for t in threads:
-            out.append((s, t, windows))
-    return out
-
-
 WINDOWS = [(1, 0), (2, 1), (2048, 2048)]
 
 
-def lines_for(progs, windows, rng, fl="A", ins=0, sp=(50, 300)):
+def lines_for(progs, windows, fl="A", ins=0, sp=(50, 300), rot=0):
     lines = []
     for i, p in enumerate(progs):
-        w, th = windows[i % len(windows)] if windows else (2048, 2048)
+        w, th = windows[(i + rot) % len(windows)]
         lines.append(prog_line(p, fl=fl, w=w, th=th, ins=ins, sp=sp))
     return lines
 
@@ -229,48 +242,58 @@ def run(ctx):
     exe = ctx.harness("run_prog", ["harness/dtd/run_prog.c"])
     model_check(ctx, d)
     if ctx.quick:
-        progs = gen_programs(ctx, d, "a", 3, 10, 3, 60) + gen_programs(ctx, d, "b", 2, 8, 2, 40)
-        scheds, threads = SCHEDS_QUICK, [1, 4]
+        progs = gen_programs(ctx, d, "a", 3, 10, 3, 50) + gen_programs(ctx, d, "b", 2, 8, 2, 30)
+        dups = gen_programs(ctx, d, "d", 2, 6, 3, 12, dup=True)
+        configs = CONFIGS_QUICK
     else:
         progs = gen_programs(ctx, d, "a", 3, 12, 3, 500) + gen_programs(ctx, d, "b", 2, 8, 2, 300) + \
             gen_programs(ctx, d, "c", 4, 14, 3, 400)
-        scheds, threads = SCHEDS_ALL, [1, 2, 4, 8]
-    ctx.extra["programs_from_tlc"] = len(progs)
+        dups = gen_programs(ctx, d, "d", 2, 6, 3, 100, dup=True) + gen_programs(ctx, d, "e", 3, 10, 4, 100, dup=True)
+        configs = CONFIGS_ALL
+    dups = [p for p in dups if has_dup(prog_line(p))]
+    ctx.extra["programs_from_tlc"] = len(progs) + len(dups)
+    ctx.extra["programs_with_one_datum_in_several_parameters"] = len(dups)
     ctx.sample({"program": prog_line(progs[0])})
-    # ---- one process: every scheduler x thread count, window settings rotate over the programs -------------
+    if dups:
+        ctx.sample({"program_same_datum_in_several_parameters": prog_line(dups[0])})
+    # ---- one process: every configuration, window settings rotate over the programs -------------------------------
     single = []
-    k = 0
-    for s in scheds:
-        for t in threads:
-            rot = WINDOWS[k % 3:] + WINDOWS[:k % 3]
-            k += 1
-            single += run_batch(ctx, exe, lines_for(progs, rot, ctx.rng), "s_%s_%d" % (s, t), threads=t, sched=s,
-                                timeout=900)
+    for k, (s, t) in enumerate(configs):
+        single += run_batch(ctx, exe, lines_for(progs, WINDOWS, rot=k), "s_%s_%d" % (s, t), threads=t, sched=s, timeout=900)
     if not ctx.quick:   # tasks inserting tasks
-        single += run_batch(ctx, exe, lines_for(progs[:300], WINDOWS, ctx.rng, ins=1), "ins", threads=4, sched="lfq", timeout=900)
-    nv = validate(ctx, "SeqTrace", single, single_events,
-                  "one-process DTD execution is not a behaviour of Seq.tla (values / ordering)")
-    # ---- several processes: values only --------------------------------------------------------------------------
+        single += run_batch(ctx, exe, lines_for(progs[:300], WINDOWS, ins=1), "ins", threads=4, sched="lfq", timeout=900)
+    # one datum in several parameters of a task (kept apart: on a tree without fixes/dtd-same-tile-several-params.diff
+    # most of these crash or hang, every failure costs a restart of the driver)
+    dsingle = []
+    for k, (s, t) in enumerate(configs[:2] if ctx.quick else configs[:8]):
+        dsingle += run_batch(ctx, exe, lines_for(dups, WINDOWS, rot=k, sp=(30, 120)), "d_%s_%d" % (s, t), threads=t, sched=s,
+                             timeout=900, max_restarts=len(dups), env={"VERIF_ALARM": "10"})
+    dupkey = lambda x: KEY_DUP if has_dup(x.line) else None
+    nv = validate(ctx, "SeqTrace", single + dsingle, single_events,
+                  "one-process DTD execution is not a behaviour of Seq.tla (values / ordering)", key=dupkey)
+    # ---- several processes: values only ------------------------------------------------------------------------------
     multi = []
-    mp = progs[:40] if ctx.quick else progs[:400]
+    mp = (progs[:30] + dups[:6]) if ctx.quick else (progs[:400] + dups[:60])
     for nr in ([2, 3] if ctx.quick else [2, 3, 4]):
-        multi += run_batch(ctx, exe, lines_for(mp, [(2048, 2048), (2, 1)], ctx.rng, sp=(20, 100)), "m%d" % nr,
-                           threads=2, sched=scheds[nr % len(scheds)], nranks=nr, timeout=900)
+        s, t = configs[nr % len(configs)]
+        multi += run_batch(ctx, exe, lines_for(mp, [(2048, 2048), (2, 1)], sp=(20, 100)), "m%d" % nr,
+                           threads=max(2, t), sched=s, nranks=nr, timeout=900, max_restarts=len(dups),
+                           env={"VERIF_ALARM": "30"})
     nv += validate(ctx, "SeqTraceValues", multi, merged_events,
-                   "multi-process DTD execution does not produce the sequential values")
-    ctx.evaluations = len(single) + len(multi)
-    ctx.extra["executions_single"] = len(single)
+                   "multi-process DTD execution does not produce the sequential values", key=dupkey)
+    ctx.evaluations = len(single) + len(dsingle) + len(multi)
+    ctx.extra["executions_single"] = len(single) + len(dsingle)
     ctx.extra["executions_multi"] = len(multi)
     ok = [x for x in single if not x.failed]
     if ok:
         ctx.sample({"config": ok[0].cfg, "trace": single_events(ok[0])[:12]})
-        if nv == 0:
-            corrupted_rejected(ctx, "SeqTrace", single_events(ok[0]))
+        corrupted_rejected(ctx, "SeqTrace", single_events(ok[0]))
     okm = [x for x in multi if not x.failed]
-    if okm and nv == 0:
-        corrupted_rejected(ctx, "SeqTraceValues", merged_events(okm[-1]))
+    if okm:
+        corrupted_rejected(ctx, "SeqTraceValues", merged_events(okm[0]))
     ctx.assume("one body function per access signature; affinity given by a PARSEC_VALUE|PARSEC_AFFINITY rank parameter")
     ctx.assume("every process inserts the same program (DTD is SPMD)")
+    ctx.assume("schedulers ip, llp and ll with one thread are not used here (active-wait live-lock, see C04)")
 
 
 def replay(ctx, obj):
